@@ -128,6 +128,33 @@ pub fn mutate(w: &World, d: &Datagram, m: &Mutation) -> (Vec<u8>, Option<usize>)
                 }
             }
         }
+        Mutation::ReIv { seed } => {
+            if let Some((p, _)) = &d.decoded {
+                let mut p = p.clone();
+                p.iv ^= 1u128 << (*seed % 128);
+                b = packet_encode(p, &d.to_id);
+            }
+        }
+        Mutation::HandshakeRecord { variant } => {
+            if let Some((p, _)) = &d.decoded {
+                if let PacketKind::Handshake { src_id, id_nonce_sig, ephem_pubkey, .. } = &p.kind {
+                    let sender = w.nodes.iter().find(|n| ids::node_id(&n.id) == *src_id);
+                    let rec = match (variant % 3, sender) {
+                        (1, Some(n)) => Some(n.older_enr.clone()),
+                        (2, Some(n)) => Some(n.enr.clone()),
+                        _ => None,
+                    };
+                    let mut p2 = p.clone();
+                    p2.kind = PacketKind::Handshake {
+                        src_id: *src_id,
+                        id_nonce_sig: id_nonce_sig.clone(),
+                        ephem_pubkey: ephem_pubkey.clone(),
+                        enr_record: rec,
+                    };
+                    b = packet_encode(p2, &d.to_id);
+                }
+            }
+        }
         Mutation::Remask { to } => {
             let t = *to as usize % w.nodes.len();
             mask_header(&dst, &mut b, hdr_end);
@@ -272,7 +299,7 @@ pub fn act(w: &mut World, op: &Op) -> bool {
                 let (bytes, to_override) = mutate(w, &dg, m);
                 let Some(to) = to_override.or_else(|| w.node_by_addr(&dg.to_addr)) else { return false };
                 let fa = addr_of(w, *from, dg.from_addr);
-                let same = bytes == dg.bytes && to_override.is_none();
+                let same = bytes == dg.bytes && Some(to) == w.node_by_addr(&dg.to_addr);
                 w.inject(to, fa, bytes, if same { Some(i) } else { None }, Some(format!("mutate:{m:?}")));
                 true
             }
